@@ -172,6 +172,18 @@ def jobs(tier):
         add_const(roc, "x")
         negate(roc)
         shift_time(roc)
+        if n >= 2:
+            # sub-second stamps shifted by a sub-second constant
+            def T_frac(V, A):
+                from symex.values import SDelta
+                d = V.int("d_shift", -(2 ** 20), 2 ** 20)
+                df = V.float("df_shift", lo=0, hi=1)
+                V.assume(df.v < 1)
+                V.grid.append(df.v * 8 == z3.ToReal(z3.Int("df_shift!fk")))
+                ts = [t + SDelta(d.v, FALSE, df.v) for t in A.t]
+                V.assume(t_in_range(ts))
+                return clone(A, t=ts)
+            out.append(Invariance(c10.RateOfChange(n, frac=True), "shift sub-second timestamps by a sub-second constant", T_frac))
         add_const(c13.Density(n, True, True), "rho")
         if n <= 3:
             fl = c11.FlatLine(n, 60)
